@@ -867,7 +867,7 @@ func (ce *cenv) evalCall(e *CExpr) cvar {
 		if tn == "bytes" {
 			return cvar{v: x.typeTest(iv, types.NewSlice(types.Typ[types.Uint8])), t: boolT}
 		}
-		obj := x.env.pkg.Types.Scope().Lookup(tn)
+		obj := x.env.lookupType(tn)
 		if obj == nil {
 			obj = types.Universe.Lookup(tn)
 		}
@@ -897,7 +897,7 @@ func (ce *cenv) evalCall(e *CExpr) cvar {
 		argn(2)
 		v := ce.eval(e.Args[0])
 		iv := x.toTerm(v.v, v.t)
-		obj := x.env.pkg.Types.Scope().Lookup(e.Args[1].Name)
+		obj := x.env.lookupType(e.Args[1].Name)
 		if obj == nil {
 			ce.fail("unboxptr: unknown type %s", e.Args[1].Name)
 		}
@@ -1023,7 +1023,7 @@ func (ce *cenv) evalCall(e *CExpr) cvar {
 		argn(2)
 		v := ce.eval(e.Args[0])
 		iv := x.toTerm(v.v, v.t)
-		obj := x.env.pkg.Types.Scope().Lookup(e.Args[1].Name)
+		obj := x.env.lookupType(e.Args[1].Name)
 		if obj == nil {
 			ce.fail("unboxval: unknown type %s", e.Args[1].Name)
 		}
@@ -1292,4 +1292,21 @@ func provablyLe(a, b *Term) bool {
 	ba, ca := splitConst(a)
 	bb, cb := splitConst(b)
 	return ba == bb && ca.Cmp(cb) <= 0
+}
+
+// lookupType: a type of the package, or of an imported package written pkg_Type (net_UDPAddr).
+func (e *Env) lookupType(name string) types.Object {
+	if o := e.pkg.Types.Scope().Lookup(name); o != nil {
+		return o
+	}
+	if i := strings.Index(name, "_"); i > 0 {
+		for _, imp := range e.pkg.Types.Imports() {
+			if imp.Name() == name[:i] {
+				if o := imp.Scope().Lookup(name[i+1:]); o != nil {
+					return o
+				}
+			}
+		}
+	}
+	return nil
 }
